@@ -9,7 +9,7 @@ binary = [np.add, np.subtract, np.multiply, np.true_divide, np.floor_divide, np.
           np.bitwise_and, np.bitwise_or, np.bitwise_xor, np.logical_and, np.logical_or, np.logical_xor, np.remainder]
 unary = [np.negative, np.abs, np.invert, np.logical_not, np.sqrt, np.sign, np.square, np.isnan, np.floor]
 D=[np.bool_,np.int8,np.int32,np.int64,np.uint8,np.float32,np.float64]
-for it in range(50000):
+for it in range(int(__import__("os").environ.get("RECON_N", 50000))):
     n=random.choice([1,2,3,5,8,13])
     a=rand_arr(n,random.choice(D)); b=rand_arr(n,random.choice(D))
     ra=RunLengthArray.from_array(a); rb=RunLengthArray.from_array(b)
